@@ -12,7 +12,7 @@ COMMON_NOTE = ("Trusted: Coq 8.16.1 kernel; no axioms (Print Assumptions output 
                "both quoting backends built from the working tree; extracted theorem predicates applied to the "
                "implementation's outputs.")
 
-TECH = ("Coq proof (Rocq 8.16.1, kernel-checked, no axioms) over a hand-written Gallina model; tie to the source: tables regenerated from /repo each run, Python-ast-to-Gallina re-translation of _path.py, unsplit_result, make_netloc, encode_url, pre_encoded_url, __str__, __eq__, the ordering operators, 25 accessors, 13 modifiers, _make_child, join, split_netloc, _encode_host and the pinned IDNA helpers with equality proofs, "
+TECH = ("Coq proof (Rocq 8.16.1, kernel-checked, no axioms) over a hand-written Gallina model; tie to the source: tables regenerated from /repo each run, Python-ast-to-Gallina re-translation of _path.py, unsplit_result, make_netloc, encode_url, pre_encoded_url, __str__, __eq__, the ordering operators, 27 accessors, 13 modifiers, _make_child, join, human_repr, split_netloc, _encode_host and three pinned library wrappers with equality proofs, "
         "extracted-model differential correspondence against both backends, extracted theorem predicates evaluated on the implementation's outputs")
 
 CHECKS = {
@@ -202,7 +202,9 @@ CHECKS = {
                  'leaves such a delimiter raw; human_quote is a per-character rendering and RE-PARSING IT GIVES THE CANONICAL ENCODING OF '
                  'THE DECODED TEXT: requoter(human_quote t) = plain quoter t for user/password, path and fragment (either backend, every '
                  'surrogate-free t) and for the whole query string (C18_component_roundtrip, C18_stored_component_fixed, '
-                 'C18_query_roundtrip); side conditions on the regenerated tables by complete ASCII sweeps. PARTIAL: the URL-level '
+                 'C18_query_roundtrip); side conditions on the regenerated tables by complete ASCII sweeps; human_repr of yarl/_url.py is '
+                 're-translated from the source on every run and proved equal to the model, human_quote is pinned (C18_source_*). '
+                 'PARTIAL: the URL-level '
                  "composition (IDNA-decoded host, netloc assembly, the parser's split) is the extracted predicate c18_pred on builds from "
                  '70 decoded texts x IDN/IPv4/IPv6 hosts (both backends), not proved. Known finding F13.'),
         "design_ref": "DESIGN.md section 7 C18",
